@@ -214,6 +214,38 @@ Theorem P1_profile_direct_independent_of_inverse_clean :
 Proof. exact profile_direct_independent_of_inverse_clean. Qed.
 Print Assumptions P1_profile_direct_independent_of_inverse_clean.
 
+(** For an instance dictionary each of whose listed instances is the subject of
+    some triple of the graph -- in particular the one the tracker computes
+    from the same graph -- there is no side condition at all. *)
+Theorem P1_profile_inverse_flag_subjects : forall cfg (I : insts) (G : graph),
+  NoDup (dkeys I) ->
+  (forall i cs, In (i, cs) I -> cs <> [] -> exists t, In t G /\ nid (ts t) = i) ->
+  profile (set_inverse cfg false) I G =
+  match profile (set_inverse cfg true) I G with
+  | inl (P, C, ID) => inl (dmapv strip_c P, C, dmapv strip_i ID)
+  | inr e => inr e
+  end.
+Proof. exact profile_inverse_flag_subjects. Qed.
+Print Assumptions P1_profile_inverse_flag_subjects.
+
+Theorem P1_profile_inverse_flag_tracked : forall cfg m cap (G : graph) (I : insts),
+  track (p_tau cfg) m cap G = inl I ->
+  profile (set_inverse cfg false) I G =
+  match profile (set_inverse cfg true) I G with
+  | inl (P, C, ID) => inl (dmapv strip_c P, C, dmapv strip_i ID)
+  | inr e => inr e
+  end.
+Proof. exact profile_inverse_flag_tracked. Qed.
+Print Assumptions P1_profile_inverse_flag_tracked.
+
+(** The tracker's dictionary satisfies the hypothesis [NoDup (dkeys I)] of (b). *)
+Theorem P1_track_insts_ok : forall tau m cap (G : graph) (I : insts),
+  track tau m cap G = inl I ->
+  NoDup (dkeys I) /\
+  forall i, In i (dkeys I) -> exists t, In t G /\ nid (ts t) = i /\ tp t = tau.
+Proof. exact track_insts_ok. Qed.
+Print Assumptions P1_track_insts_ok.
+
 (** ** (e) statement order does not matter (feeds C09) *)
 
 Theorem P1_cnt_perm : forall dir tau (I : insts) (G G' : graph) i p k,
